@@ -4,6 +4,22 @@ import json, os
 HERE = os.path.dirname(os.path.abspath(__file__))
 PY = "/venv/bin/python"
 CHECKS = {
+ "C01": ("exhaustive enumeration of lazily generated process programs on the real kernel; reference agenda (minimum of the pending set) on every observed occurrence",
+         "Every program of up to D executed instructions (timeouts 0/1/2/0.5, shared event, join, interrupt, spawn, negative delay) with up to 4 processes, run to exhaustion and through single and chained run(until=t) calls, is executed on the real Environment; each observed occurrence must be the minimum (due time, urgent-before-normal, trigger order) of the harness's own pending set and occur at its due instant.",
+         "bounds: D<=6/7 (5/6 with numeric stops); delays from the menu; black-box observation via probes and body logs",
+         "DESIGN.md 3 C01"),
+ "C02": ("exhaustive enumeration of process programs with value-carrying timeouts, succeed/fail, joins, plain callbacks, catching/non-catching waits; registration-order ledger and crash prediction",
+         "Every program of up to D instructions over the value/failure alphabet is executed; per event the invocation sequence must equal the registration list exactly once each in one kernel step, every waiter receives the event's own tag or an exception of the same type and args, already-processed events resume in the same step, re-triggers raise RuntimeError, and run() raises exactly the failures no process was waiting for, at that instant.",
+         "bounds: D<=6/7 with 2 initial processes (two alphabets), D<=5/6 with 3; <=4 processes",
+         "DESIGN.md 3 C02"),
+ "C04": ("exhaustive enumeration of process programs with interrupts (peer, self, finished, not-yet-started victims) and victim reactions; per-victim FIFO ledger",
+         "Every program of up to D instructions where processes interrupt each other at any instant (incl. the instant the victim's target is due) and an interrupted victim goes on or re-waits is executed; interrupts must arrive once, at the issue instant, in issue order, before any ordinary occurrence, never before the victim's first statement; refusals must raise RuntimeError; unique value tags expose any resumption by an abandoned target.",
+         "bounds: D<=6/7 with 2 initial processes, D<=5/6 with 3; <=4 processes",
+         "DESIGN.md 3 C04"),
+ "C05": ("exhaustive enumeration of condition trees x leaf kinds x timings x construction order on the real kernel; recursive reference over the observed leaf processing order",
+         "Every condition tree of the stated shape (AllOf/AnyOf 0-3 operands, &, |, nested) over timeouts, helper-triggered events and child processes that succeed or fail at instants 0/1/2, built at 0 or 1 before/after the helpers, with/without catcher, is executed; the root's waiter must resume exactly at the reference instant with exactly the processed leaves in operand order (or the failing operand's exception), and run() must raise exactly the failures the statement leaves unhandled.",
+         "bounds: depth<=2/3, <=3/4 leaves; crash expectation three-valued (see evidence assumptions)",
+         "DESIGN.md 3 C05"),
  # id: (technique, level text, level note, design ref)
  "C12": ("exhaustive enumeration of arrival workloads against the real schedulers; work-conserving single-server reference + ledger",
          "Every workload of up to N packets (gaps incl. same-step/same-instant/coinciding with transmission ends) over 6 schedulers x tables x rates x flow-to-class maps is executed on the real code; departure instants, per-flow order, counters after every kernel step and Monitor samples are compared with an exact reference. Complete within the stated bounds, nothing sampled.",
